@@ -237,6 +237,20 @@ def reach_task(n, fold, what, u=None, bound=None):
         bad += [b_not(rr2v.node(u[i])) for i in range(n)] + [rr2v.foreign_keys(u), rr2v.foreign_members(u)]
         rv2 = GView(r)
         bad += [rv2.foreign_keys(u), rv2.foreign_members(u)]       # the first reversed graph did not move either
+        # history: the receiver's OWN later answers follow its modifications (no stale memo, no result handed out twice):
+        # reverse the modified G, modify that result, add one more node to G, reverse G again
+        uu = list(u) + ['fresh', 'fresh2']
+        hist_edges = {(u[0], 'fresh'), ('fresh2', u[0])}
+        r3 = ctx.call(ctx.getattr1(g, 'get_reversed_graph'), [], {})
+        r3v = GView(r3)
+        impl += [r3v.member(a, b) for a in uu for b in uu]
+        bad += [b_not(r3v.node(a)) for a in uu]
+        ctx.call(sfold(r3, lambda o: ctx.getattr1(o, 'add_edge')), ['fresh', 'fresh2'], {})
+        ctx.call(ctx.getattr1(g, 'add_node'), ['fresh3'], {})
+        r4 = ctx.call(ctx.getattr1(g, 'get_reversed_graph'), [], {})
+        r4v = GView(r4)
+        impl += [r4v.member(a, b) for a in uu for b in uu]
+        bad += [b_not(r4v.node(a)) for a in uu + ['fresh3']]
     bad.append(exc_guard(fr))
     bad.append(unwind_guard(vm))
     t1 = time.time()
@@ -250,6 +264,9 @@ def reach_task(n, fold, what, u=None, bound=None):
         want = [b_or(*[b_and(x2[i], reach[i][j]) for i in range(n)]) for j in range(n)]
     elif what == 'reverse':
         want = [e2[j][i] for i in range(n) for j in range(n)] + [e2[i][j] for i in range(n) for j in range(n)] + [e2[i][j] for i in range(n) for j in range(n)]
+        uu = list(u) + ['fresh', 'fresh2']
+        hist = [(e2[uu.index(b)][uu.index(a)] if (a in u and b in u) else ((a, b) in ((u[0], 'fresh'), ('fresh2', u[0])))) for a in uu for b in uu]
+        want += hist + hist
     elif what == 'subgraph':
         want = [x2[i] for i in range(n)] + [b_and(x2[i], x2[j], e2[i][j]) for i in range(n) for j in range(n)]
     else:
@@ -295,6 +312,12 @@ elif what == 'reverse':
     G2.add_node('fresh'); G2.add_edge('fresh', u[0]); G2.add_edge(u[0], 'fresh2')
     rr2 = r2.get_reversed_graph()
     if set(rr2.nodes()) != set(u) or set(rr2.edges()) != set(E): bad.append('reversing the reversed graph after the original was modified gives %%s' %% rr2)
+    E3 = {(b, a) for (a, b) in E} | {(u[0], 'fresh'), ('fresh2', u[0])}
+    r3 = G2.get_reversed_graph()
+    if set(r3.nodes()) != set(u) | {'fresh', 'fresh2'} or set(r3.edges()) != E3: bad.append('reversal of the modified graph gives %%s' %% r3)
+    r3.add_edge('fresh', 'fresh2'); G2.add_node('fresh3')
+    r4 = G2.get_reversed_graph()
+    if set(r4.nodes()) != set(u) | {'fresh', 'fresh2', 'fresh3'} or set(r4.edges()) != E3: bad.append('history reverse / add_node / reverse: second reversal gives %%s' %% r4)
 elif what == 'subgraph':
     s = G.get_subgraph(set(X))
     if set(s.nodes()) != set(X) & set(u) or set(s.edges()) != {(a, b) for (a, b) in E if a in X and b in X}: bad.append('subgraph %%s' %% s)
